@@ -21,11 +21,22 @@ fn bump(x: f64, c: f64, w: f64) -> f64 {
     (-(x - c) * (x - c) / (2.0 * w * w)).exp()
 }
 
-/// smooth positive density: kind "tanh": interface between the two bulk densities along axis 0, modulated along the others;
-/// kind "oscillating": damped layering around 0.6 rho_hi
+/// largest spacing between neighbouring grid points of axis d (polar axes are logarithmic: the spacing grows with r)
+fn max_spacing(g: &[Vec<f64>], d: usize) -> f64 {
+    g[d].windows(2).map(|w| (w[1] - w[0]).abs()).fold(0.0, f64::max)
+}
+
+/// smooth positive density, every feature resolved by the grid (widths and wavelengths are at least 5 / 12 grid spacings):
+/// "tanh": interface between the two bulk densities along axis 0; "oscillating": damped layering around 0.6 rho_hi next to
+/// the origin; "pore": fluid confined to x < 0.7 L with layering towards the wall; "wave": single Fourier modes (periodic)
 fn density_field(kind: &str, g: &[Vec<f64>], l: &[f64], hi: &[f64], lo: &[f64], seg_comp: &[usize], sig: f64) -> ArrayD<f64> {
     let mut shape = vec![seg_comp.len()];
     shape.extend(g.iter().map(|a| a.len()));
+    let dx = max_spacing(g, 0);
+    let w_int = (1.2 * sig).max(5.0 * dx);
+    let w_wall = (0.5 * sig).max(5.0 * dx);
+    let lambda = (1.03 * sig).max(12.0 * dx);
+    let env = (3.0 * sig).max(2.5 * lambda);
     ArrayD::from_shape_fn(IxDyn(&shape), |ix| {
         let s = ix[0];
         let c = seg_comp[s];
@@ -35,8 +46,14 @@ fn density_field(kind: &str, g: &[Vec<f64>], l: &[f64], hi: &[f64], lo: &[f64], 
             m *= 1.0 + 0.2 * (2.0 * std::f64::consts::PI * g[d][ix[d + 1]] / l[d]).cos();
         }
         match kind {
-            "tanh" => (lo[c] + (hi[c] - lo[c]) * 0.5 * (1.0 - ((x - 0.5 * l[0]) / (1.2 * sig) + 0.3 * s as f64).tanh())) * m,
-            _ => 0.6 * hi[c] * (1.0 + 0.5 * (2.0 * std::f64::consts::PI * x / (1.03 * sig)).cos() * (1.0 - 0.2 * s as f64) * (-x * x / (2.0 * 9.0 * sig * sig)).exp()) * (0.8 + 0.2 * m),
+            "tanh" => (lo[c] + (hi[c] - lo[c]) * 0.5 * (1.0 - ((x - 0.5 * l[0]) / w_int + 0.3 * s as f64).tanh())) * m,
+            "wave" => hi[c] * (0.55 + 0.35 * (2.0 * std::f64::consts::PI * x / l[0] + 0.4 * s as f64).cos()) * m,
+            "pore" => {
+                let xw = 0.7 * l[0];
+                let wall = 0.5 * (1.0 - ((x - xw) / w_wall).tanh());
+                (0.5 * hi[c] * (1.0 + 0.6 * (2.0 * std::f64::consts::PI * (xw - x) / lambda).cos() * (1.0 - 0.2 * s as f64) * (-(xw - x) * (xw - x) / (2.0 * env * env)).exp()) * wall + 1e-7 * hi[c]) * (0.8 + 0.2 * m)
+            }
+            _ => 0.6 * hi[c] * (1.0 + 0.5 * (2.0 * std::f64::consts::PI * x / lambda).cos() * (1.0 - 0.2 * s as f64) * (-x * x / (2.0 * env * env)).exp()) * (0.8 + 0.2 * m),
         }
     })
 }
@@ -44,12 +61,13 @@ fn density_field(kind: &str, g: &[Vec<f64>], l: &[f64], hi: &[f64], lo: &[f64], 
 /// smooth bump supported away from the boundaries (relative to the local density), different per segment
 fn perturbation(which: usize, rho: &ArrayD<f64>, g: &[Vec<f64>], l: &[f64]) -> ArrayD<f64> {
     let c0 = if which == 0 { 0.42 } else { 0.58 };
+    let w: Vec<f64> = (0..g.len()).map(|d| (0.055 * l[d]).max(4.0 * max_spacing(g, d)).min(0.09 * l[d])).collect();
     ArrayD::from_shape_fn(rho.raw_dim(), |ix| {
         let s = ix[0];
         let mut b = 1.0;
         for d in 0..g.len() {
             let c = (c0 + 0.03 * s as f64 - 0.05 * d as f64) * l[d];
-            b *= bump(g[d][ix[d + 1]], c, 0.055 * l[d]);
+            b *= bump(g[d][ix[d + 1]], c, w[d]);
         }
         let sign = if which == 1 && s % 2 == 1 { -0.6 } else { 1.0 };
         rho[&ix] * b * sign * (1.0 + 0.5 * s as f64)
@@ -191,32 +209,41 @@ macro_rules! variation_events {
     }};
 }
 
+/// box lengths in units of sigma: a fixed list, so that every case of the quick tier is also a case of the thorough tier
+const LENGTHS: [f64; 4] = [12.0, 15.7, 17.403151636022354, 20.0];
+
 pub fn run(args: &Args) {
     let mut tr = Tr::create(&args.out);
     let mut rng = Rng::new(args.seed ^ 0x17);
     let n1: Vec<usize> = if args.thorough { vec![64, 128, 512, 2048] } else { vec![128, 512] };
-    for fu in functionals(args.thorough) {
+    for (fi, fu) in functionals(args.thorough).into_iter().enumerate() {
         let sig = if fu.name.starts_with("FMT") { 1.0 } else { 3.5 };
         let states = bulk_states(&fu);
         if states.len() < 2 { continue; }
         // FMT: states are (eta = 0.05, eta = 0.35); others: (liquid, vapor)
         let (hi, lo) = if fu.name.starts_with("FMT") { (&states[1].1, &states[0].1) } else { (&states[0].1, &states[1].1) };
-        for kind in ["tanh", "oscillating"] {
-            for &n in &n1 {
-                let lz = if rng.below(3) == 0 { Some(1) } else { None };
-                let len = Length::from_reduced(sig * rng.range(12.0, 20.0));
-                for gk in ["cartesian", "spherical", "polar"] {
-                    if !args.thorough && kind == "oscillating" && gk != "cartesian" && rng.below(2) == 0 { continue; }
-                    let axis = match gk { "cartesian" => Axis::new_cartesian(n, len, None), "spherical" => Axis::new_spherical(n, len), _ => Axis::new_polar(n, len) };
-                    let grid = match gk { "cartesian" => Grid::Cartesian1(axis), "spherical" => Grid::Spherical(axis), _ => Grid::Polar(axis) };
-                    let meta = json!({"functional":fu.name,"grid":gk,"points":[n],"profile":kind,"lanczos":lz.is_some(),"length":fs(len.to_reduced())});
-                    let arrays = n <= 128;
-                    let r = guarded(std::panic::AssertUnwindSafe(|| variation_events!(Ix1, grid, hi, lo, lz, meta.clone(), kind, sig, arrays, tr)));
-                    if let Err(m) = r { tr.ev(json!({"ev":"Panic","functional":fu.name,"grid":gk,"msg":m})); }
+        for (ki, kind) in ["tanh", "oscillating", "pore"].into_iter().enumerate() {
+            for (ni, &n) in n1.iter().enumerate() {
+                for (li, &lsig) in LENGTHS.iter().enumerate() {
+                    // quick tier: one length per (functional, profile, n), chosen by the seed
+                    if !args.thorough && li != (fi + ki + ni + args.seed as usize) % LENGTHS.len() { continue; }
+                    let lz = if (fi + li + ni) % 3 == 0 { Some(1) } else { None };
+                    let len = Length::from_reduced(sig * lsig);
+                    for gk in ["cartesian", "spherical", "polar"] {
+                        let axis = match gk { "cartesian" => Axis::new_cartesian(n, len, None), "spherical" => Axis::new_spherical(n, len), _ => Axis::new_polar(n, len) };
+                        let grid = match gk { "cartesian" => Grid::Cartesian1(axis), "spherical" => Grid::Spherical(axis), _ => Grid::Polar(axis) };
+                        let meta = json!({"functional":fu.name,"grid":gk,"points":[n],"profile":kind,"lanczos":lz.is_some(),"length":fs(len.to_reduced()),"length_sigma":fs(lsig)});
+                        let arrays = n <= 128 && (args.thorough || li % 2 == 0);
+                        let r = guarded(std::panic::AssertUnwindSafe(|| variation_events!(Ix1, grid, hi, lo, lz, meta.clone(), kind, sig, arrays, tr)));
+                        if let Err(m) = r { tr.ev(json!({"ev":"Panic","functional":fu.name,"grid":gk,"msg":m})); }
+                    }
                 }
             }
-            // 2-D and 3-D grids (small)
-            if !args.thorough && (kind == "oscillating" || rng.below(2) != 0) { continue; }
+        }
+        // 2-D and 3-D grids (small): the profile has to be smooth on the grid's topology (periodic) and resolved by 8-32 points
+        {
+            let kind = "wave";
+            if !args.thorough && rng.below(2) != 0 { continue; }
             let l = Length::from_reduced(sig * 10.0);
             let nn = if args.thorough { 32 } else { 16 };
             let ax = |n: usize| Axis::new_cartesian(n, l, None);
@@ -227,7 +254,7 @@ pub fn run(args: &Args) {
                 ("cylindrical", Grid::Cylindrical { r: Axis::new_polar(512, l), z: ax(nn / 2) }),
             ];
             for (gk, grid) in grids2 {
-                let meta = json!({"functional":fu.name,"grid":gk,"points":if gk == "cylindrical" { [512, nn / 2] } else { [nn, nn] },"profile":kind,"lanczos":false,"length":fs(l.to_reduced())});
+                let meta = json!({"functional":fu.name,"grid":gk,"points":if gk == "cylindrical" { [512, nn / 2] } else { [nn, nn] },"profile":kind,"lanczos":false,"length":fs(l.to_reduced()),"length_sigma":fs(10.0)});
                 let r = guarded(std::panic::AssertUnwindSafe(|| variation_events!(Ix2, grid, hi, lo, None, meta.clone(), kind, sig, nn <= 16 && gk != "cylindrical", tr)));
                 if let Err(m) = r { tr.ev(json!({"ev":"Panic","functional":fu.name,"grid":gk,"msg":m})); }
             }
@@ -238,7 +265,7 @@ pub fn run(args: &Args) {
                 ("periodical3(80,70,60)", Grid::Periodical3(ax(n3), ax(n3), ax(n3), [80.0 * DEGREES, 70.0 * DEGREES, 60.0 * DEGREES])),
             ];
             for (gk, grid) in grids3 {
-                let meta = json!({"functional":fu.name,"grid":gk,"points":[n3, n3, n3],"profile":kind,"lanczos":false,"length":fs(l.to_reduced())});
+                let meta = json!({"functional":fu.name,"grid":gk,"points":[n3, n3, n3],"profile":kind,"lanczos":false,"length":fs(l.to_reduced()),"length_sigma":fs(10.0)});
                 let r = guarded(std::panic::AssertUnwindSafe(|| variation_events!(Ix3, grid, hi, lo, None, meta.clone(), kind, sig, n3 <= 8, tr)));
                 if let Err(m) = r { tr.ev(json!({"ev":"Panic","functional":fu.name,"grid":gk,"msg":m})); }
             }
@@ -248,29 +275,27 @@ pub fn run(args: &Args) {
     println!("C17 trace: {} lines", n);
 }
 
-/// debugging aid: weighted density n0 of the first contribution near the axis of a polar grid
+/// debugging aid: weighted densities of FMT for a structureless pore filling (constant inside, zero outside) on polar grids
 pub fn debug(_args: &Args) {
     for fu in functionals(false) {
-        if fu.name != "PcSaft/methanol" && fu.name != "FMT(WhiteBear)" { continue; }
+        if fu.name != "FMT(WhiteBear)" { continue; }
         let states = bulk_states(&fu);
-        let (hi, lo) = if fu.name.starts_with("FMT") { (&states[1].1, &states[0].1) } else { (&states[0].1, &states[1].1) };
-        let sig = if fu.name.starts_with("FMT") { 1.0 } else { 3.5 };
-        for (n, len) in [(512usize, 60.911030726078245 / 3.5 * sig), (512, 61.5 / 3.5 * sig), (512, 60.0 / 3.5 * sig), (2048, 60.911030726078245 / 3.5 * sig)] {
+        let hi = &states[1].1;
+        for (n, len, w) in [(512usize, 15.7, 0.5), (512, 12.0, 0.5), (512, 20.0, 0.5), (2048, 15.7, 0.5), (128, 15.7, 0.5), (512, 15.7, 1.5)] {
             let grid = Grid::Polar(Axis::new_polar(n, Length::from_reduced(len)));
             let mut profile: DFTProfile<Ix1, F> = DFTProfile::new(grid, hi, None, None, None);
-            let (g, l) = coords(&profile.grid);
-            let seg_comp: Vec<usize> = profile.dft.component_index().to_vec();
-            let h: Vec<f64> = hi.partial_density.to_reduced().to_vec();
-            let lo_: Vec<f64> = lo.partial_density.to_reduced().to_vec();
-            let rho_d = density_field("oscillating", &g, &l, &h, &lo_, &seg_comp, sig);
-            let rho: Array2<f64> = rho_d.into_dimensionality().unwrap();
+            let (g, _l) = coords(&profile.grid);
+            let rho0 = 0.3;
+            let rho: Array2<f64> = Array2::from_shape_fn((1, n), |(_, k)| rho0 * 0.5 * (1.0 - ((g[0][k] - 0.7 * len) / w).tanh()) + 1e-7);
             profile.density = Density::from_reduced(rho.clone());
             let wd = profile.weighted_densities().unwrap();
-            let w = &wd[0];
-            let step = n / 512;
-            println!("{} n={} len={}: r, rho, n0(first weighted density), last weighted density", fu.name, n, len);
-            for k in (0..24 * step).step_by(step) {
-                println!("   {:.3} {:.5e} {:.5e} {:.5e}", g[0][k], rho[[0, k]], w[[0, k]], w[[w.shape()[0] - 1, k]]);
+            let w0 = &wd[0];
+            let nw = w0.shape()[0];
+            println!("n={} len={} wall width {}: exact n3 inside = {:.6e}; rows: r, rho, then the {} weighted densities", n, len, w, rho0 * std::f64::consts::PI / 6.0, nw);
+            for k in [0, 1, 2, 5, 10, 20, 40, 80, n / 4, n / 2, 3 * n / 4, n - 1] {
+                if k >= n { continue; }
+                let row: Vec<String> = (0..nw).map(|a| format!("{:.4e}", w0[[a, k]])).collect();
+                println!("   {:.4} {:.4e} | {}", g[0][k], rho[[0, k]], row.join(" "));
             }
         }
     }
